@@ -151,6 +151,25 @@ func monitorC13(c *Ctx, id string, cs Case, e *Exec, final []string) {
 			probe{"i2", 2, func(n int) ast.ItemNode { return ast.NewIntNode(2, rep(n, -32768)...) }},
 			probe{"list", 1, func(n int) ast.ItemNode { return ast.NewListNode(rep(n, ast.NewBooleanNode(true))...) }})
 	}
+	// a fill goes through the same limit as the constructor
+	for _, decl := range [][2]int{{0, -1}, {0, 20000000}, {16777216, -1}} {
+		for _, n := range []int{16777215, 16777216} {
+			if n < decl[0] {
+				continue
+			}
+			var it ast.ItemNode
+			func() {
+				defer func() { recover() }()
+				it = ast.NewASCIINodeVariable("v", decl[0], decl[1]).FillVariables(map[string]interface{}{"v": string(bytes.Repeat([]byte{'z'}, n))})
+			}()
+			c.stats["limit-probe-items"]++
+			if (it != nil) != (n <= 16777215) {
+				c.hit(id, cs, "limit-fill", fmt.Sprintf("ASCII variable [%d..%d] filled with %d characters: built=%v", decl[0], decl[1], n, it != nil))
+			} else if it != nil && len(it.ToBytes()) != n+4 {
+				c.hit(id, cs, "limit-fill-encoding", fmt.Sprintf("ASCII variable filled with %d characters encodes to %d bytes", n, len(it.ToBytes())))
+			}
+		}
+	}
 	for _, p := range probes {
 		nmax := 16777215 / p.w
 		for _, n := range []int{nmax, nmax + 1} {
@@ -239,7 +258,12 @@ func suiteC02(c *Ctx) {
 		case 0:
 			g.hsmsMsg(it)
 		case 1: // not complete: optional wait bit / no session id
-			m := g.add(Step{Op: "NM", Name: []byte("n"), Stream: g.pick(128), Func: 1 + 2*g.pick(128), WBit: g.pick(3),
+			fn := g.pick(256)
+			wb := g.pick(3)
+			if fn%2 == 0 && wb == 1 {
+				wb = 2 // W is not allowed on an even function; optional is
+			}
+			m := g.add(Step{Op: "NM", Name: []byte("n"), Stream: g.pick(128), Func: fn, WBit: wb,
 				Dir: []byte(directions[g.pick(3)]), Ref: it})
 			if g.chance(0.7) {
 				m = g.add(Step{Op: "SS", Ref: m, Sid: g.sessionID(), Sys: g.sysBytes()})
@@ -304,7 +328,8 @@ func suiteC01(c *Ctx) {
 		if g.chance(0.3) {
 			g.add(Step{Op: "RP", Ref: r}) // the decoder's own output, once more
 		}
-		c.emit(Case{"roundtrip", g.steps, false})
+		// in a quarter of the cases every buffer handed in or out is reused afterwards
+		c.emit(Case{"roundtrip", g.steps, g.chance(0.25)})
 	}
 }
 
@@ -409,6 +434,20 @@ func suiteC03(c *Ctx) {
 		}
 		flush("corruptions")
 	}
+	// float items holding every kind of non-finite pattern (refused), next to finite neighbours (accepted)
+	for _, p := range []uint32{0x7f800000, 0xff800000, 0x7fc00000, 0x7f800001, 0xffc12345, 0x7f7fffff, 0xff7fffff, 0x00000001, 0x80000000} {
+		text := []byte{0o44<<2 | 1, 8, 0x3f, 0x80, 0, 0, byte(p >> 24), byte(p >> 16), byte(p >> 8), byte(p)}
+		steps = append(steps, Step{Op: "HP", S: frame(text)})
+	}
+	for _, p := range []uint64{0x7ff0000000000000, 0xfff0000000000000, 0x7ff8000000000000, 0x7ff0000000000001, 0xfff8000000000123, 0x7fefffffffffffff, 0x0000000000000001} {
+		text := []byte{0o40<<2 | 1, 8}
+		for i := 7; i >= 0; i-- {
+			text = append(text, byte(p>>(8*uint(i))))
+		}
+		steps = append(steps, Step{Op: "HP", S: frame(text)})
+		steps = append(steps, Step{Op: "HP", S: frame(append([]byte{1, 2}, append(text, 0xa5, 1, 7)...))})
+	}
+	flush("non-finite")
 	// control messages, valid and corrupted
 	for st := 0; st < 16; st++ {
 		g := c.gen()
